@@ -8,6 +8,7 @@ The statement covers one-node tours too (`as = [a]`: reward `-D a a`); the real 
 over the batch; the harness keeps a regression probe for n = 1 inside batches).
 -/
 import Rl4co.Env.Tsp
+import Rl4co.Proofs.TspfamParams
 import Rl4co.Spec.Tsp
 
 namespace Rl4co.Tsp
@@ -24,7 +25,7 @@ theorem zipWith_swap (D : Nat → Nat → Int) (hs : ∀ a b, D a b = D b a) (xs
 /-- **C03 (TSP).** -/
 theorem reward_eq_objective (i : Inst) (hs : ∀ a b, i.D a b = i.D b a) (as : List Nat) :
     reward i as = - Spec.Tsp.objective i.D as := by
-  simp only [reward, Spec.Tsp.objective, ← rollLen_eq_closedLen, rollLen]
+  simp only [reward_eq, Spec.Tsp.objective, ← rollLen_eq_closedLen, rollLen]
   rw [zipWith_swap i.D hs]
 
 /-- Sanity on a concrete symmetric matrix: tour 2 → 0 → 1 → 2. -/
